@@ -2,6 +2,8 @@
 """developer tool: run N generated cases of a check in-process against the *installed* mdtraj (or PYTHONPATH overlay)
 and summarise violation signatures.  usage: probe.py CHECK start n [sigfilter]"""
 import sys, json, os, collections, time
+for _k in ("OMP_NUM_THREADS", "OPENBLAS_NUM_THREADS", "MKL_NUM_THREADS", "NUMEXPR_NUM_THREADS"):
+    os.environ.setdefault(_k, "1")
 sys.path.insert(0, os.path.dirname(os.path.dirname(os.path.abspath(__file__))))
 from simlib.core import engine_for, Sandbox, execute_case, run_seed
 from simlib.prng import Rng
